@@ -786,8 +786,65 @@ var stdTable = map[string]stdEffect{
 	"strconv.Itoa":                    {pure: true},
 }
 
+// statelessPkgs: standard packages whose package-level functions keep no state and never write
+// through their arguments (documented contract); a pointer-like result may share memory with any
+// pointer-like argument (bytes.TrimSpace, strings.Fields ...) or be fresh.
+var statelessPkgs = map[string]bool{
+	"math": true, "math/bits": true, "math/cmplx": true, "unicode": true, "unicode/utf8": true, "unicode/utf16": true,
+	"strings": true, "bytes": true, "strconv": true, "cmp": true,
+}
+
+// autoStd derives the effect of a package-level function of a stateless package from its signature.
+func autoStd(c *ssa.CallCommon) (stdEffect, bool) {
+	callee := c.StaticCallee()
+	if callee == nil || callee.Pkg == nil || callee.Signature.Recv() != nil || !statelessPkgs[callee.Pkg.Pkg.Path()] {
+		return stdEffect{}, false
+	}
+	name := callee.Name()
+	var e stdEffect
+	if callee.Pkg.Pkg.Path() == "strconv" && strings.HasPrefix(name, "Append") {
+		e.writeElem = []int{0}
+	}
+	ps := callee.Signature.Params()
+	for i := 0; i < ps.Len(); i++ {
+		t := ps.At(i).Type()
+		if _, isFn := t.Underlying().(*types.Signature); isFn {
+			e.callsArg = append(e.callsArg, i)
+		} else if pointerLike(t) {
+			if _, isPtr := t.Underlying().(*types.Pointer); isPtr {
+				return stdEffect{}, false // an out parameter: not derived
+			}
+			e.retArg = append(e.retArg, i)
+		}
+	}
+	e.fresh = true
+	if rs := callee.Signature.Results(); rs.Len() > 1 {
+		for i := 0; i < rs.Len(); i++ {
+			if b, isB := rs.At(i).Type().Underlying().(*types.Basic); pointerLike(rs.At(i).Type()) && !(isB && b.Kind() == types.String) && rs.At(i).Type().String() != "error" {
+				return stdEffect{}, false // pointer-like members of a result tuple are not modelled
+			}
+		}
+	}
+	if len(e.callsArg) == 0 && len(e.writeElem) == 0 {
+		rs := callee.Signature.Results()
+		ptrRes := false
+		for i := 0; i < rs.Len(); i++ {
+			if pointerLike(rs.At(i).Type()) {
+				ptrRes = true
+			}
+		}
+		if !ptrRes {
+			return stdEffect{pure: true}, true
+		}
+	}
+	return e, true
+}
+
 func (f *fa) stdCall(in ssa.Instruction, v ssa.Value, name string, c *ssa.CallCommon, args []locset) {
 	e, ok := stdTable[name]
+	if !ok {
+		e, ok = autoStd(c)
+	}
 	if !ok {
 		f.unknown("external callee " + name)
 		return
